@@ -389,7 +389,7 @@ var c06LexErrs = []string{"'x", `"${`, "$(", "`", "${x", "$((1", `"`, "${x:", "<
 var c06BadToks = []string{")", ";;", "fi", "}", "done", "then", "|", "&&", "(", "esac", "do", ";"}
 
 func c06Gen(c *core.Ctx) {
-	n := c.Pick(40, 600)
+	n := c.Pick(40, 1200)
 	emit := func(src, kind string) {
 		core.Do(c, c06Case{Src: src, Kind: kind}, c06Exec)
 	}
